@@ -187,7 +187,11 @@ type Replay struct {
 func readable(session []workerlib.ExplicitRun) []string {
 	var out []string
 	for ri, r := range session {
-		out = append(out, fmt.Sprintf("run %d: %d task(s)", ri, len(r.Tasks)))
+		sh := ""
+		if r.Share {
+			sh = " (calls asking the same input pass the very same string value)"
+		}
+		out = append(out, fmt.Sprintf("run %d: %d task(s)%s", ri, len(r.Tasks), sh))
 		for ti, t := range r.Tasks {
 			var cs []string
 			for _, c := range t {
